@@ -268,7 +268,7 @@ parseinit(struct scope *s, struct type *t)
 #endif
 	if (t->incomplete && t->kind != TYPEARRAY)
 		error(&tok.loc, "initializer specified for incomplete type");
-	if (t->kind == TYPEARRAY && t->base->size == 0)
+	if (t->kind == TYPEARRAY && (t->base->size == 0 || !t->incomplete && t->size == 0 && t->prop & PROPVM))
 		error(&tok.loc, "initializer specified for variable length array type");
 	for (;;) {
 		if (p.cur) {
